@@ -1,4 +1,5 @@
 import PlumpyModel.PM.Proof2
+import PlumpyModel.PM.LProof11
 /-!
 # C01 — state changes follow the lifecycle graph; terminal states are final
 
@@ -76,5 +77,53 @@ example : (run sync2 (init 0) [.kill]).st.label = .killed := by decide +kernel
 example : (run sync2 (init 0) [.fail (.user 1)]).st.label = .excepted := by decide +kernel
 example : (run sync2 (init 0) [.tick, .fail (.user 1), .callSoon true, .tickCb (.usercb true)]).st = .finished (some 3) true := by
   decide +kernel
+
+/-!
+## with control requests issued DURING transitions (listeners, state-event callbacks)
+
+Model: `PMF.L` (lean/PlumpyModel/PM/Listener.lean; see the section of the same name in `Props/C04.lean`): `runL P (initL nf plan) evs`
+is the run of the same events in which, in addition, the oracle `plan` makes listeners and state-event callbacks call `pause()`,
+`play()`, `kill()` from inside notifications, i.e. in the middle of transitions and of the enactment of pending requests.
+-/
+namespace L
+
+/-- **C01, first half, with listeners**: for every program, every plan of requests issued from inside notifications and every
+history of events, the log of entered states is a path of the documented lifecycle graph that ends at the current state. -/
+theorem C01_listener_edges_documented (P : Prog) (nf : Nat) (plan : Plan) (evs : List Ev) :
+    edgesDoc (runL P (initL nf plan) evs).c.entered = true ∧
+    (runL P (initL nf plan) evs).c.entered.head? = some (runL P (initL nf plan) evs).c.st.label :=
+  let h := runL_inv P (initL nf plan) evs (inv_init nf)
+  ⟨edgesDoc_of_edgesOk _ h.chain, h.head⟩
+
+/-- **C01, second half, with listeners — terminal states stay final under requests issued by listeners**: from ANY configuration
+(any plan, counters, flags) whose state is FINISHED, EXCEPTED or KILLED, no history of events — including every `pause()`, `play()`,
+`kill()` that listeners issue from `on_process_played` etc. — changes the state object or the entered log. -/
+theorem C01_listener_terminal_states_final (P : Prog) (l : LCfg) (evs : List Ev) (ht : terminal l.c.st.label = true) :
+    (runL P l evs).c.st = l.c.st ∧ (runL P l evs).c.entered = l.c.entered :=
+  runL_terminal_final P l evs ht
+
+/-- a transition into a terminal state that is in progress cannot be abandoned by a request made from inside it: it ends in that
+state, or in EXCEPTED if entering it fails -/
+theorem C01_listener_terminal_transition_completes (F : Hook → LCfg → LCfg) (l : LCfg) (s : SObj) (ht : terminal s.label = true) :
+    (transitionToL F l s).c.st = s ∨ (transitionToL F l s).c.st.label = .excepted :=
+  transitionToL_terminal l s ht
+
+/-- NOT proved — **with the empty plan the model with listeners is the model**: the `…L` twins repeat the functions of
+`PM/Model.lean` with the oracle consulted at the notification points, so with no plan entry every event should have exactly the
+effect and return value it has in `PMF.step`.  A proof needs, besides one equation per twin, an invariant of the old model that its
+`runAction` relies on silently (a pending pause action that is run with a next state is still the pause alias: the real code's
+"retracted while transitioning" test, present in `runActionL`, never fires without listeners).  It is CHECKED instead: every case of
+the main stream of every process-control check is sent to both drivers (`pmodel pm`, `pmodel pml`) and the outputs must be identical
+(`harness/pm.py`, `explore`, stream `twin`). -/
+def C01_listener_conservative : Prop :=
+  ∀ (P : Prog) (nf : Nat) (evs : List Ev), (runL P (initL nf []) evs).c = run P (init nf) evs
+
+-- non-vacuity: a kill from `on_process_running` ends KILLED through legal edges; a late play on a process that was killed while
+-- paused notifies `on_process_played`, whose listener kills and pauses: nothing changes
+example : (runL sync2 (initL 0 [(.running, 1, .kill)]) [.tick]).c.entered = [.killed, .running, .created] := by decide +kernel
+example : (runL sync2 (initL 0 [(.played, 1, .kill), (.played, 2, .pause)]) [.pause, .kill, .play, .play, .tick]).c.st = .killed := by
+  decide +kernel
+
+end L
 
 end PMF
